@@ -584,6 +584,21 @@ func (db *DB) initFromDatabaseHeader() error {
 	if err == io.EOF {
 		return nil
 	} else if err == errInvalidDatabaseHeader { // invalid file
+		// A database that was dropped and created again, and whose first
+		// transaction was interrupted before it wrote page 1: only the files of
+		// the new database go, the log that ends with the drop stays.
+		if dropped, err := db.endsWithDrop(); err != nil {
+			return err
+		} else if dropped {
+			log.Printf("invalid database header on %q after a drop, removing database files", db.name)
+			for _, path := range []string{db.DatabasePath(), db.JournalPath(), db.WALPath(), db.SHMPath()} {
+				if err := db.os.Remove("INITDBHDR", path); err != nil && !os.IsNotExist(err) {
+					return err
+				}
+			}
+			return nil
+		}
+
 		log.Printf("invalid database header on %q, clearing data files", db.name)
 		if err := db.clean(); err != nil {
 			return fmt.Errorf("clean: %w", err)
@@ -603,6 +618,29 @@ func (db *DB) initFromDatabaseHeader() error {
 	}
 
 	return nil
+}
+
+// endsWithDrop reports whether the newest transaction file of the log is the
+// one written by Drop.
+func (db *DB) endsWithDrop() (bool, error) {
+	filename, err := db.maxLTXFile(context.Background())
+	if os.IsNotExist(err) || (err == nil && filename == "") {
+		return false, nil
+	} else if err != nil {
+		return false, err
+	}
+
+	f, err := db.os.Open("INITDBHDR:LTX", filename)
+	if err != nil {
+		return false, err
+	}
+	defer func() { _ = f.Close() }()
+
+	dec := ltx.NewDecoder(f)
+	if err := dec.DecodeHeader(); err != nil {
+		return false, nil // an unreadable file says nothing
+	}
+	return dec.Header().Commit == 0, nil
 }
 
 // Recover forces a rollback (journal) or checkpoint (wal).
